@@ -280,6 +280,13 @@ GeOK(a, b) == \A p \in DOMAIN a \cap DOMAIN b : IsU(a[p]) \/ IsU(b[p]) \/ Le(b[p
 NonNegOK(a) == \A p \in DOMAIN a : IsU(a[p]) \/ a[p][1] >= 0
 
 -----------------------------------------------------------------------------
+(* C18 on the documented formulas: b is the series of the inputs scaled by 2 (prices, or volumes); the formula is
+   homogeneous of degree k when b = 2^k * a position by position (Undef exactly where a is) *)
+Pow2(k) == IF k >= 0 THEN I(2 ^ k) ELSE Q(1, 2 ^ (-k))
+HomogOK(a, b, k) == DOMAIN a = DOMAIN b /\ \A p \in DOMAIN a : b[p] = Mul(Pow2(k), a[p])
+Twice(a) == Scale(I(2), a)
+
+-----------------------------------------------------------------------------
 (* emission: a series as [lo, <<values>>] *)
 Out(a) == IF IsEmpty(a) THEN [lo |-> 0, v |-> <<>>] ELSE [lo |-> Lo(a), v |-> [i \in 1..(Hi(a) - Lo(a) + 1) |-> a[Lo(a) + i - 1]]]
 Words(A, k) == [1..k -> A]
